@@ -12,6 +12,8 @@
   `…_partial` theorem (proved under the hypothesis that excludes the defect class, stated on the
   input) and a kernel-checked `…_witness`:
     F25  `Connection: <name>, close` from an HTTP/1.1 origin → nominated field forwarded
+    F50  origin status line that ends after the code (`HTTP/1.1 204`) → written `HTTP/1.1 204 204`
+         (`c02_status_line_preserved_full` / `c02_status_line_preserved` / `c02_status_line_bare_code` / `…_full_witness`)
   and, for the flush policy, a zero-length write between the two halves of a split pattern.
 
   Section E2 is about a whole keep-alive connection (`Flush.Conn`): every response is written through
@@ -22,8 +24,8 @@
 
   Section H is the status line byte for byte (`Model/RespStatus.lean`: `ReadResponse`'s reader, `Response.Write`
   and martian's header-only writer as two definitions): every phrase reaches the client unchanged through
-  either writer (`c02_status_line_preserved`), the one normalisation (`c02_status_line_bare_code`), and
-  the cutset-writer witness.  Section I says which connection limit bounds the relay of a response
+  either writer (`c02_status_line_preserved`), the bare-code stutter F50 (`c02_status_line_bare_code`,
+  full statement and witness), and the cutset-writer witness.  Section I says which connection limit bounds the relay of a response
   (`Model/RespRelay.lean`): `WriteTimeout` alone; the read-side limits never do.
 
   Repaired in the code and therefore proved at full strength here (no exclusions):
@@ -732,15 +734,34 @@ theorem c02_drain_matters_for_refusals_only (m : ReqConn.Drain) (d : ReqConn.Req
   `TrimPrefix(Status, Itoa(code)+" ")`.  The library's normalisations, all of them:
     * blanks between the version and the code are dropped (`TrimLeft(status, " ")`);
     * a line that ends after the code — no blank, no phrase — comes out with the code repeated in
-      the phrase position (`Status` = "204" has no prefix "204 ", so all of it is printed after the code);
+      the phrase position (`Status` = "204" has no prefix "204 ", so all of it is printed after the code):
+      a phrase the origin did not send, recorded as finding F50 (full statement, witness, partial below);
     * a line with the blank and an empty phrase comes out as it came in;
   anything else of the phrase — leading blanks or tabs, digits, the code itself repeated, `HTTP/1.1`,
   bytes ≥ 0x80, any length — is not looked at (the phrase is an arbitrary `Bytes` below). -/
 
+/-- the full statement: the reason phrase is preserved for EVERY origin status line `HTTP/1.m SP* code …`
+    with a code 100–999, through either writer — the lines that have the blank after the code (phrase =
+    whatever follows it, possibly nothing) AND the lines that end after the code (no phrase: the client
+    is sent none either, with or without the blank).  FALSE of the code on the second kind (finding F50,
+    class `bare-code-status-line-stutters`): see `c02_status_line_preserved_full_witness`; what the code
+    does there is `c02_status_line_bare_code`, the rest is `c02_status_line_preserved`. -/
+def c02_status_line_preserved_full : Prop :=
+  ∀ (st : Nat → Bytes) (ho : Bool) (m s : Nat), m < 10 → 100 ≤ s → s < 1000 →
+    (∀ (k : Nat) (reason : Bytes),
+      StatusLine.clientLine st ho (StatusLine.originLineBlanks k m s reason) = some (statusLine m s reason)) ∧
+    (StatusLine.clientLine st ho (StatusLine.originLineBare m s) = some (StatusLine.originLineBare m s ++ crlf) ∨
+     StatusLine.clientLine st ho (StatusLine.originLineBare m s) = some (statusLine m s []))
+
 /-- **The status line reaches the client unchanged**, whichever writer writes it: for every HTTP/1.x
     version, every three-digit code 100–999 and EVERY phrase (any bytes), the origin's line
     `HTTP/1.m SP* code SP phrase` is written as `HTTP/1.m SP code SP phrase CRLF` — the origin's own
-    bytes when it used one blank. -/
+    bytes when it used one blank.
+    Inputs covered: every origin status line that HAS the blank after the code (the phrase may be
+    empty, start with blanks, tabs, digits, the code itself, …).  Not covered: a line that ends after
+    the code (`originLineBare`, e.g. `HTTP/1.1 204`) — there the statement is false (F50); this theorem
+    is the partial form of `c02_status_line_preserved_full`, the input class is excluded by the shape
+    `originLineBlanks k m s reason` of the line. -/
 theorem c02_status_line_preserved (st : Nat → Bytes) (ho : Bool) (k : Nat) {m s : Nat} (hm : m < 10)
     (h1 : 100 ≤ s) (h2 : s < 1000) (reason : Bytes) :
     StatusLine.clientLine st ho (StatusLine.originLineBlanks k m s reason) = some (statusLine m s reason) ∧
@@ -771,8 +792,9 @@ example : StatusLine.clientLine (fun _ => []) true (Req.bs "HTTP/1.1 404 404 pag
     rw [bs_eq, bs_eq]; decide
   rw [e1, e2]; exact a
 
-/-- the one normalisation that touches the phrase: a status line that ends after the code (no blank,
-    no phrase) is written with the code repeated in the phrase position, by both writers -/
+/-- what the code does on the input class of F50 (`bare-code-status-line-stutters`): a status line
+    that ends after the code (no blank, no phrase) is written with the code repeated in the phrase
+    position, by both writers — the client receives a reason phrase the origin did not send -/
 theorem c02_status_line_bare_code (st : Nat → Bytes) (ho : Bool) {m s : Nat} (hm : m < 10)
     (h1 : 100 ≤ s) (h2 : s < 1000) :
     StatusLine.clientLine st ho (StatusLine.originLineBare m s) = some (statusLine m s (dec3 s)) := by
@@ -781,6 +803,23 @@ theorem c02_status_line_bare_code (st : Nat → Bytes) (ho : Bool) {m s : Nat} (
   cases ho
   · exact congrArg some (StatusLine.write_bare st hm h1 h2)
   · exact congrArg some ((StatusLine.headerOnlyLine_eq st _).trans (StatusLine.write_bare st hm h1 h2))
+
+/-- the full statement is FALSE of the code (kernel-checked): `HTTP/1.1 204` to a GET reaches the client
+    as `HTTP/1.1 204 204` — neither the origin's bytes nor the line with an empty phrase -/
+theorem c02_status_line_preserved_full_witness : ¬ c02_status_line_preserved_full := by
+  intro h
+  have hb := (h (fun _ => []) true 1 204 (by decide) (by decide) (by decide)).2
+  rw [c02_status_line_bare_code (fun _ => []) true (m := 1) (s := 204) (by decide) (by decide) (by decide)] at hb
+  revert hb
+  decide +kernel
+
+/-- the witness spelt out: the line sent for `HTTP/1.1 204`, header-only writer and `Response.Write` -/
+example : StatusLine.clientLine (fun _ => []) true (StatusLine.originLineBare 1 204) =
+      some [72, 84, 84, 80, 47, 49, 46, 49, 32, 50, 48, 52, 32, 50, 48, 52, 13, 10] ∧
+    StatusLine.clientLine (fun _ => []) false (StatusLine.originLineBare 1 404) =
+      some [72, 84, 84, 80, 47, 49, 46, 49, 32, 52, 48, 52, 32, 52, 48, 52, 13, 10] :=
+  ⟨c02_status_line_bare_code (fun _ => []) true (m := 1) (s := 204) (by decide) (by decide) (by decide),
+   c02_status_line_bare_code (fun _ => []) false (m := 1) (s := 404) (by decide) (by decide) (by decide)⟩
 
 /-- the two writers print the same line for whatever was read — HEAD and GET of one resource get the
     same status line — and for EVERY input line, regular or not -/
